@@ -5,6 +5,7 @@ import (
 	"flag"
 	"fmt"
 	"os"
+	"path/filepath"
 	"sort"
 	"strings"
 	"time"
@@ -12,6 +13,7 @@ import (
 	"verif/harness/internal/bt"
 	"verif/harness/internal/conc"
 	"verif/harness/internal/core"
+	"verif/harness/internal/gcs"
 )
 
 // concCase is one interleaving of one concurrent program, as lines for the Lean driver and the
@@ -31,32 +33,40 @@ type concCase struct {
 
 // serialOrderExists asks the Model for every serial order compatible with real time whether it
 // explains the responses and the final state.
-func serialOrderExists(c *concCase) (bool, error) {
+func serialOrderExists(c *concCase, modelKind string, same func(impl, model string) bool) (bool, error) {
 	perms := conc.Perms(c.nops, c.run.Order)
 	var all []string
 	for _, pm := range perms {
 		all = append(all, "reset")
 		all = append(all, c.setup...)
-		for _, i := range pm {
-			all = append(all, c.ops[i])
+		all = append(all, "conc begin "+modelKind)
+		for _, l := range c.ops {
+			all = append(all, "conc op "+l)
 		}
+		for _, i := range pm {
+			for _, a := range []string{"invoke", "acquire", "work", "release", "respond"} {
+				all = append(all, fmt.Sprintf("conc step %d %s", i, a))
+			}
+		}
+		all = append(all, "conc end")
 		all = append(all, c.final...)
 	}
 	res, err := core.RunModel(all)
 	if err != nil {
 		return false, err
 	}
-	per := 1 + len(c.setup) + c.nops + len(c.final)
+	per := 1 + len(c.setup) + 1 + c.nops + 5*c.nops + 1 + len(c.final)
 	for k, pm := range perms {
 		out := res[k*per : (k+1)*per]
+		base := 1 + len(c.setup) + 1 + c.nops
 		ok := true
 		for j, i := range pm {
-			if c.run.Resp[i] != "" && out[1+len(c.setup)+j] != c.run.Resp[i] {
+			if c.run.Resp[i] != "" && !same("ok "+c.run.Resp[i], out[base+5*j+2]) {
 				ok = false
 			}
 		}
 		for j := range c.final {
-			if j < len(c.fimpl) && out[1+len(c.setup)+c.nops+j] != c.fimpl[j] {
+			if j < len(c.fimpl) && !same(c.fimpl[j], out[base+5*c.nops+1+j]) {
 				ok = false
 			}
 		}
@@ -67,45 +77,216 @@ func serialOrderExists(c *concCase) (bool, error) {
 	return false, nil
 }
 
-func cmdBtConc(args []string) {
-	fs := flag.NewFlagSet("btconc", flag.ExitOnError)
-	scenario := fs.String("scenario", "c06s", "c06s")
+// concProg abstracts a concurrent program of either emulator.
+type concProg interface {
+	Config() string
+	SetupLines() []string
+	OpLines() []string
+	OpKinds() []string
+	FinalLines() []string
+	// Mk returns the factory of fresh systems; setupOut receives the prefix's responses of the latest system.
+	Mk(setupOut *[]string) func(y func(string)) conc.System
+	Final(sys conc.System) []string
+	// Post canonicalises all implementation lines of one run together (generation ranks).
+	Post(lines []string) []string
+	Opts() conc.Opts
+	Sched() []int
+	WithSched(s []int) json.RawMessage
+	// Same decides whether the implementation's line is what the Model's line allows.
+	Same(impl, model string) bool
+	// Strict: the order in which the goroutines pass their parking points IS the serial order (Bigtable:
+	// the table lock brackets the whole request). Otherwise (GCS: store mutations sit somewhere inside the
+	// locked section and reads take no lock) the recorded order is only the first candidate and a run is
+	// accepted if some serial order compatible with real time explains it.
+	Strict() bool
+}
+
+type btProg struct{ p *bt.ConcProgram }
+
+func (b btProg) Config() string { return b.p.Engine }
+func (b btProg) SetupLines() (out []string) {
+	for _, op := range b.p.Setup {
+		out = append(out, op.Line())
+	}
+	return
+}
+func (b btProg) OpLines() (out []string) {
+	for _, op := range b.p.Ops {
+		out = append(out, op.Line())
+	}
+	return
+}
+func (b btProg) OpKinds() (out []string) {
+	for _, op := range b.p.Ops {
+		out = append(out, op.Kind)
+	}
+	return
+}
+func (b btProg) FinalLines() (out []string) {
+	for _, op := range b.p.FinalReads() {
+		out = append(out, op.Line())
+	}
+	return
+}
+func (b btProg) Mk(setupOut *[]string) func(y func(string)) conc.System { return b.p.MkSys(setupOut) }
+func (b btProg) Final(sys conc.System) []string                          { return bt.ExecFinal(sys, b.p.FinalReads()) }
+func (b btProg) Post(lines []string) []string                            { return lines }
+func (b btProg) Opts() conc.Opts                                         { return conc.Opts{N: len(b.p.Ops), Cls: bt.ConcClassify} }
+func (b btProg) Same(impl, model string) bool { return impl == model }
+func (b btProg) Strict() bool                  { return true }
+func (b btProg) Sched() []int                                            { return b.p.Sched }
+func (b btProg) WithSched(s []int) json.RawMessage {
+	q := *b.p
+	q.Sched = s
+	j, _ := json.Marshal(&q)
+	return j
+}
+
+type gcsProg struct {
+	p    *gcs.ConcProgram
+	base *[]int64
+}
+
+func (b gcsProg) Config() string { return b.p.Store }
+func (b gcsProg) SetupLines() (out []string) {
+	for _, op := range b.p.Setup {
+		out = append(out, op.Line())
+	}
+	return
+}
+func (b gcsProg) OpLines() (out []string) {
+	for _, op := range b.p.Ops {
+		out = append(out, op.Line())
+	}
+	return
+}
+func (b gcsProg) OpKinds() (out []string) {
+	for _, op := range b.p.Ops {
+		out = append(out, op.Kind)
+	}
+	return
+}
+func (b gcsProg) FinalLines() (out []string) {
+	for _, op := range b.p.FinalReads() {
+		out = append(out, op.Line())
+	}
+	return
+}
+func (b gcsProg) Mk(setupOut *[]string) func(y func(string)) conc.System {
+	return b.p.MkSys(setupOut, b.base)
+}
+func (b gcsProg) Final(sys conc.System) []string { return gcs.ExecFinal(sys, b.p.FinalReads()) }
+func (b gcsProg) Post(lines []string) []string   { return gcs.RankGens(nil, lines) }
+func (b gcsProg) Opts() conc.Opts {
+	if b.p.Tear {
+		return conc.Opts{N: len(b.p.Ops), Cls: gcs.TearClassify, LazyAcquire: true}
+	}
+	return conc.Opts{N: len(b.p.Ops), Cls: gcs.ConcClassify, LazyAcquire: true}
+}
+func (b gcsProg) Same(impl, model string) bool {
+	if strings.HasPrefix(impl, "ok ") && strings.HasPrefix(model, "ok ") {
+		return gcs.Accept(nil, impl[3:], model[3:])
+	}
+	return gcs.Accept(nil, impl, model)
+}
+func (b gcsProg) Strict() bool { return false }
+func (b gcsProg) Sched() []int { return b.p.Sched }
+func (b gcsProg) WithSched(s []int) json.RawMessage {
+	q := *b.p
+	q.Sched = s
+	j, _ := json.Marshal(&q)
+	return j
+}
+
+func cmdBtConc(args []string)  { cmdConc("btconc", args) }
+func cmdGcsConc(args []string) { cmdConc("gcsconc", args) }
+
+func cmdConc(kind string, args []string) {
+	fs := flag.NewFlagSet(kind, flag.ExitOnError)
+	scenario := fs.String("scenario", "c06s", "c06s | c07s")
 	seed := fs.Uint64("seed", 1, "PRNG seed")
 	n := fs.Int("programs", 20, "number of concurrent programs")
-	engines := fs.String("engines", "btree,leveldb-mem", "engines")
+	defEng := "btree,leveldb-mem"
+	if kind == "gcsconc" {
+		defEng = "mem,file"
+	}
+	engines := fs.String("engines", defEng, "engines / stores")
 	out := fs.String("out", "-", "report path")
-	_ = fs.String("corpus", "", "unused")
+	corpus := fs.String("corpus", "", "directory of saved programs: each is explored in full first")
 	replay := fs.String("replay", "", "replay file")
 	maxRuns := fs.Int("maxruns", 400, "interleavings per program at most")
 	fs.Parse(args)
 	t0 := time.Now()
 	if *engines == "all" || *engines == "" {
-		*engines = "btree,leveldb-mem"
+		*engines = defEng
 	}
 	engs := strings.Split(*engines, ",")
-	rep := &core.Report{Scenario: "btconc/" + *scenario, Seed: *seed, Configs: engs, OpKinds: map[string]int{}, RespKinds: map[string]int{}, Extra: map[string]int{}}
+	rep := &core.Report{Scenario: kind + "/" + *scenario, Seed: *seed, Configs: engs, OpKinds: map[string]int{}, RespKinds: map[string]int{}, Extra: map[string]int{}}
 
-	var progs []*bt.ConcProgram
-	if *replay != "" {
-		b, err := os.ReadFile(*replay)
+	var progs []concProg
+	loadProg := func(path string, keepSched bool) {
+		b, err := os.ReadFile(path)
 		if err != nil {
 			fmt.Fprintln(os.Stderr, err)
 			os.Exit(2)
 		}
 		var obj struct {
-			OpsJSON *bt.ConcProgram `json:"ops_json"`
+			OpsJSON json.RawMessage `json:"ops_json"`
 		}
 		if err := json.Unmarshal(b, &obj); err != nil || obj.OpsJSON == nil {
-			fmt.Fprintln(os.Stderr, "bad replay file", err)
+			fmt.Fprintln(os.Stderr, "bad replay file", path, err)
 			os.Exit(2)
 		}
-		progs = append(progs, obj.OpsJSON)
+		if kind == "btconc" {
+			q := &bt.ConcProgram{}
+			if err := json.Unmarshal(obj.OpsJSON, q); err != nil {
+				fmt.Fprintln(os.Stderr, "bad replay file", err)
+				os.Exit(2)
+			}
+			if !keepSched {
+				q.Sched = nil
+			}
+			progs = append(progs, btProg{q})
+		} else {
+			q := &gcs.ConcProgram{}
+			if err := json.Unmarshal(obj.OpsJSON, q); err != nil {
+				fmt.Fprintln(os.Stderr, "bad replay file", err)
+				os.Exit(2)
+			}
+			if !keepSched {
+				q.Sched = nil
+			}
+			if *scenario == "c07t" != q.Tear && !keepSched {
+				return
+			}
+			progs = append(progs, gcsProg{q, new([]int64)})
+		}
+	}
+	if *replay != "" {
+		loadProg(*replay, true)
 	} else {
+		if *corpus != "" {
+			files, _ := filepath.Glob(filepath.Join(*corpus, "*.json"))
+			sort.Strings(files)
+			for _, f := range files {
+				loadProg(f, false)
+			}
+		}
 		root := core.NewRng(*seed)
 		for i := 0; i < *n; i++ {
 			r := root.Fork()
-			progs = append(progs, bt.GenConc(r, engs[i%len(engs)]))
+			if kind == "btconc" {
+				progs = append(progs, btProg{bt.GenConc(r, engs[i%len(engs)])})
+			} else if *scenario == "c07t" {
+				progs = append(progs, gcsProg{gcs.GenTear(r), new([]int64)})
+			} else {
+				progs = append(progs, gcsProg{gcs.GenConc(r, engs[i%len(engs)]), new([]int64)})
+			}
 		}
+	}
+	modelKind := "bt"
+	if kind == "gcsconc" {
+		modelKind = "gcs"
 	}
 
 	distinct := map[string]bool{}
@@ -114,27 +295,26 @@ func cmdBtConc(args []string) {
 	for _, p := range progs {
 		var cases []*concCase
 		var setupImpl []string
-		pj, _ := json.Marshal(p)
-		var setupLines, opLines, finalLines []string
-		for _, op := range p.Setup {
-			setupLines = append(setupLines, op.Line())
+		pj := p.WithSched(nil)
+		setupLines, opLines, finalLines := p.SetupLines(), p.OpLines(), p.FinalLines()
+		for _, k := range p.OpKinds() {
+			rep.OpKinds[k]++
 		}
-		for _, op := range p.Ops {
-			opLines = append(opLines, op.Line())
-			rep.OpKinds[op.Kind]++
-		}
-		for _, op := range p.FinalReads() {
-			finalLines = append(finalLines, op.Line())
-		}
+		nops := len(opLines)
+		opts := p.Opts()
 		visit := func(run *conc.Run) bool {
-			c := &concCase{prog: pj, sched: append([]int{}, run.Chosen...), run: run, nops: len(p.Ops), setup: setupLines, ops: opLines, final: finalLines}
+			if run.Infeasible {
+				rep.Extra["infeasible_replays_discarded"]++
+				return true
+			}
+			c := &concCase{prog: pj, sched: append([]int{}, run.Chosen...), run: run, nops: nops, setup: setupLines, ops: opLines, final: finalLines}
 			c.lines = append(c.lines, "reset")
 			c.impl = append(c.impl, "ok")
 			for i, l := range setupLines {
 				c.lines = append(c.lines, l)
 				c.impl = append(c.impl, setupImpl[i])
 			}
-			c.lines = append(c.lines, "conc begin bt")
+			c.lines = append(c.lines, "conc begin "+modelKind)
 			c.impl = append(c.impl, "ok")
 			for _, l := range opLines {
 				c.lines = append(c.lines, "conc op "+l)
@@ -147,23 +327,23 @@ func cmdBtConc(args []string) {
 		}
 		var runs int
 		var done bool
-		if len(p.Sched) > 0 && *replay != "" {
-			mk := p.MkSys(&setupImpl)
+		if len(p.Sched()) > 0 && *replay != "" {
+			mk := p.Mk(&setupImpl)
 			var last conc.System
-			run := conc.RunOne(func(y func(string)) conc.System { last = mk(y); return &keepOpen{last} }, len(p.Ops), bt.ConcClassify, p.Sched)
+			run := conc.RunOne(func(y func(string)) conc.System { last = mk(y); return &keepOpen{last} }, opts, p.Sched())
 			visit(run)
-			cases[0].fimpl = bt.ExecFinal(last, p.FinalReads())
+			cases[0].fimpl = p.Final(last)
 			last.Close()
 			runs, done = 1, false
 		} else {
 			// the final reads must be taken before the system is closed: wrap Close
-			mk := p.MkSys(&setupImpl)
+			mk := p.Mk(&setupImpl)
 			var finals [][]string
 			wrapped := func(y func(string)) conc.System {
 				s := mk(y)
-				return &finalOnClose{System: s, take: func() { finals = append(finals, bt.ExecFinal(s, p.FinalReads())) }}
+				return &finalOnClose{System: s, take: func() { finals = append(finals, p.Final(s)) }}
 			}
-			runs, done = conc.Explore(wrapped, len(p.Ops), bt.ConcClassify, *maxRuns, visit)
+			runs, done = conc.Explore(wrapped, opts, *maxRuns, visit)
 			for i, c := range cases {
 				if i < len(finals) {
 					c.fimpl = finals[i]
@@ -190,6 +370,12 @@ func cmdBtConc(args []string) {
 					}
 				}
 			}
+			// canonicalise the implementation's side of the whole run together
+			nimpl := len(c.impl)
+			joint := p.Post(append(append(append([]string{}, c.impl...), c.run.Resp...), c.fimpl...))
+			c.impl = joint[:nimpl]
+			c.run.Resp = joint[nimpl : nimpl+len(c.run.Resp)]
+			c.fimpl = joint[nimpl+len(c.run.Resp):]
 			all = append(all, c.lines...)
 		}
 		res, err := core.RunModel(all)
@@ -207,7 +393,7 @@ func cmdBtConc(args []string) {
 				if model[i] == "bad-op" {
 					rep.ModelErrors = append(rep.ModelErrors, c.lines[i])
 				}
-				if c.impl[i] != model[i] && bad < 0 {
+				if !p.Same(c.impl[i], model[i]) && bad < 0 {
 					bad = i
 				}
 			}
@@ -215,10 +401,16 @@ func cmdBtConc(args []string) {
 			if len(rep.Samples) < 3 && len(c.sched) > 5 {
 				rep.Samples = append(rep.Samples, strings.Join(c.ops, " || ")+"  schedule "+conc.SchedString(c.sched)+"  =>  "+strings.Join(c.run.Resp, " | "))
 			}
+			if bad >= 0 && !p.Strict() {
+				if serial, err := serialOrderExists(c, modelKind, p.Same); err == nil && serial {
+					rep.Extra["explained_by_another_serial_order"]++
+					bad = -1
+				}
+			}
 			if bad >= 0 {
 				rep.Extra["disagreeing_interleavings"]++
 				if rejects < 2 && len(rep.Mismatches) < 40 {
-					serial, err := serialOrderExists(c)
+					serial, err := serialOrderExists(c, modelKind, p.Same)
 					verdict := ""
 					note := "the implementation's run is not a run of the one-lock machine Emu.Conc.step over the sequential Model (a step was not enabled, or a response differs from the Model's at the request's turn)"
 					if err != nil {
@@ -231,12 +423,9 @@ func cmdBtConc(args []string) {
 						rejects++
 						note += "; SPEC-REJECTS: no serial order of the requests compatible with real time explains the responses and the final state"
 					}
-					var q bt.ConcProgram
-					json.Unmarshal(c.prog, &q)
-					q.Sched = c.sched
-					qj, _ := json.Marshal(&q)
-					rep.Mismatches = append(rep.Mismatches, core.Mismatch{Config: p.Engine, Ops: c.lines[:bad+1], Impl: c.impl[:bad+1],
-						Model: append([]string{}, model[:bad+1]...), Index: bad, ShrunkFrom: len(c.lines), Kind: "btconc", OpsJSON: qj, Note: note, SpecVerdict: verdict})
+					qj := p.WithSched(c.sched)
+					rep.Mismatches = append(rep.Mismatches, core.Mismatch{Config: p.Config(), Ops: c.lines[:bad+1], Impl: c.impl[:bad+1],
+						Model: append([]string{}, model[:bad+1]...), Index: bad, ShrunkFrom: len(c.lines), Kind: kind, OpsJSON: qj, Note: note, SpecVerdict: verdict})
 				}
 			}
 		}
